@@ -596,6 +596,9 @@ func (c *Ctx) c02Denotation(n int) {
 				chainTo(obj, lf.Path[j:], nearValue(c.R, lf, &idc))
 			}
 		}
+		if c.R.Chance(1, 2) {
+			addDecoys(c.R, obj, [][]string{lf.Path}, func() *AV { return nearValue(c.R, lf, &idc) })
+		}
 		den, ok := denote(obj, lf.Path)
 		if !ok {
 			continue
